@@ -26,6 +26,50 @@ OFFSET_AFTER_REWIND_OK = {
 }
 
 
+def _toktype_arg(b, t):
+    """the A2lTokenType variant passed to expect_token (constant aggregate assigned in the same function), or None"""
+    for a in t.get("args", []):
+        pl = mir.op_place(a)
+        if pl is None or pl["p"]:
+            continue
+        for blk in b.blocks:
+            for s_ in blk["s"]:
+                if s_["k"] == "assign" and not s_["p"]["p"] and s_["p"]["l"] == pl["l"] and s_["rv"]["r"] == "agg" and s_["rv"].get("adt") == "tokenizer::A2lTokenType":
+                    return s_["rv"].get("v")
+    return None
+
+
+def last_cursor_op(prog, b):
+    """forward may-analysis: for every block the set of operations that moved the token cursor last on some path to its terminator"""
+    st = [None] * len(b.blocks)
+    st[0] = frozenset(["entry"])
+    work = [0]
+    succ = b.succ()
+    while work:
+        x = work.pop()
+        o = st[x]
+        t = b.blocks[x]["t"]
+        if t["k"] == "call":
+            nm = mir.strip_generics((t.get("res") or "").lstrip("?"))
+            if CONSUME.search(nm):
+                lab = "consume:" + nm.split("::")[-1]
+                if nm.endswith("::expect_token"):
+                    lab += "(%s)" % (_toktype_arg(b, t) or "?")
+                o = frozenset([lab])
+            elif REWIND.search(nm):
+                o = frozenset(["rewind:" + nm.split("::")[-1]])
+            elif nm in prog.bodies and (nm.startswith("ifdata::") or nm.startswith("parser::ParserState")) and not NEUTRAL.search(nm):
+                o = frozenset(["other:" + nm.split("::")[-1]])
+        for y in succ[x]:
+            if b.blocks[y]["cleanup"]:
+                continue
+            new = o if st[y] is None else st[y] | o
+            if new != st[y]:
+                st[y] = new
+                work.append(y)
+    return st
+
+
 def r05_token(chk, rule="R05-token"):
     """hand-written parsers: get_line_offset() measures the token consumed last, so on every path the last operation that moved the
     token cursor before a get_line_offset() call is the call that consumed the value's own token (not a rewind, not another parser)"""
@@ -38,29 +82,7 @@ def r05_token(chk, rule="R05-token"):
         sites = [(bi, t) for bi, t in b.calls() if mir.strip_generics(t.get("res") or "").endswith("::get_line_offset")]
         if not sites:
             continue
-        st = [None] * len(b.blocks)
-        st[0] = frozenset(["entry"])
-        work = [0]
-        succ = b.succ()
-        while work:
-            x = work.pop()
-            o = st[x]
-            t = b.blocks[x]["t"]
-            if t["k"] == "call":
-                nm = mir.strip_generics((t.get("res") or "").lstrip("?"))
-                if CONSUME.search(nm):
-                    o = frozenset(["consume:" + nm.split("::")[-1]])
-                elif REWIND.search(nm):
-                    o = frozenset(["rewind:" + nm.split("::")[-1]])
-                elif nm in prog.bodies and (nm.startswith("ifdata::") or nm.startswith("parser::ParserState")) and not NEUTRAL.search(nm):
-                    o = frozenset(["other:" + nm.split("::")[-1]])
-            for y in succ[x]:
-                if b.blocks[y]["cleanup"]:
-                    continue
-                new = o if st[y] is None else st[y] | o
-                if new != st[y]:
-                    st[y] = new
-                    work.append(y)
+        st = last_cursor_op(prog, b)
         for bi, t in sites:
             n += 1
             for last in sorted(st[bi] or ["unreachable"]):
@@ -68,6 +90,64 @@ def r05_token(chk, rule="R05-token"):
                     continue
                 chk.add(Finding(rule, "%s::%s::%s" % (rule, mir.strip_generics(fid), last), "%s reads a line offset when the last operation on the token cursor was `%s`: the offset belongs to a different token than the value stored with it, so the value is written on the wrong line" % (fid, last), b.where(t["ln"])))
     chk.rule(rule, "get_line_offset() calls in hand-written parsers whose last preceding cursor operation on every path consumed the value's own token", n, floor=20)
+
+
+def _defs_of(b, l, depth=0, seen=None):
+    """definitions that may reach local l through plain copies: list of ('call', block, term) / ('const', value) / ('other', stmt)"""
+    seen = set() if seen is None else seen
+    if l in seen or depth > 8:
+        return []
+    seen.add(l)
+    out = []
+    for bi, blk in enumerate(b.blocks):
+        for s_ in blk["s"]:
+            if s_["k"] == "assign" and not s_["p"]["p"] and s_["p"]["l"] == l:
+                rv = s_["rv"]
+                if rv["r"] == "use":
+                    pl = mir.op_place(rv["a"])
+                    if pl is not None and not pl["p"]:
+                        out += _defs_of(b, pl["l"], depth + 1, seen)
+                    elif pl is None:
+                        out.append(("const", mir.const_int(rv["a"])))
+                    else:
+                        out.append(("other", s_))
+                else:
+                    out.append(("other", s_))
+        t = blk["t"]
+        if t["k"] == "call" and t.get("dest") and not t["dest"]["p"] and t["dest"]["l"] == l:
+            out.append(("call", bi, t))
+    return out
+
+
+def r05_endtoken(chk, rule="R05-endtoken"):
+    """a value stored in a field called `end_offset` is the number of line breaks before the block's `/end` token: when it is measured
+    with get_line_offset(), the token consumed last on every path is the one taken by expect_token(.., End) (not the tag identifier
+    behind it, which always has offset 0 to its `/end`)"""
+    from .common import Finding
+    prog = mir.prog()
+    n = 0
+    for fid, b in sorted(prog.bodies.items()):
+        if b.file == "a2lfile/src/specification.rs" or not (b.file or "").startswith("a2lfile/src/"):
+            continue
+        st = None
+        for bi, si, s_ in b.stmts():
+            if s_["k"] != "assign" or s_["rv"]["r"] != "agg" or "end_offset" not in (s_["rv"].get("fields") or []):
+                continue
+            op = s_["rv"]["ops"][s_["rv"]["fields"].index("end_offset")]
+            pl = mir.op_place(op)
+            if pl is None or pl["p"]:
+                continue
+            for d in _defs_of(b, pl["l"]):
+                if d[0] != "call" or not mir.strip_generics(d[2].get("res") or "").endswith("::get_line_offset"):
+                    continue
+                n += 1
+                if st is None:
+                    st = last_cursor_op(prog, b)
+                for last in sorted(st[d[1]] or ["unreachable"]):
+                    if last == "consume:expect_token(End)" or OFFSET_AFTER_REWIND_OK.get(mir.strip_generics(fid)) == last:
+                        continue
+                    chk.add(Finding(rule, "%s::%s::%s" % (rule, mir.strip_generics(fid), last), "%s stores an end_offset that was measured when the token consumed last was `%s`, not the `/end` token: the `/end` line of the block is written with the wrong number of line breaks" % (fid, last), b.where(d[2]["ln"])))
+    chk.rule(rule, "end_offset fields in hand-written parsers that are filled from get_line_offset() directly behind expect_token(End)", n, floor=3)
 
 
 def r05_adjacent(chk, rule="R05-adjacent"):
@@ -108,6 +188,7 @@ def run(chk):
     plumbing.r05_plumb(chk)
     r05_adjacent(chk)
     r05_token(chk)
+    r05_endtoken(chk)
     from . import writertab
     writertab.compare(chk, "R05-writer", fn_filter=lambda fn: fn.split("::")[-1] in ("add_whitespace", "add_group", "add_str_raw", "add_quoted_string", "add_str"), floor=30)
     diag.compare(chk, "R05-cursor", "cursor", cursor_table(mir.prog()), "steps of the tokenizer's scan position / line counter with their control predicates (which bytes end a token, what is trimmed before /end A2ML), compared with the reviewed table", floor=29)
